@@ -16,6 +16,7 @@ import (
 // walkModel: the walk, the chain-cloning function, the single-node clone.
 type walkModel struct {
 	tm       *tree.Model
+	shape    *walkShape
 	walk     *ssa.Function
 	chain    *ssa.Function // cloneHierarchy
 	clone    *ssa.Function
@@ -30,7 +31,8 @@ func getWalk(c *core.Ctx) *walkModel {
 		return m
 	}
 	m := &walkModel{tm: tree.Get(c)}
-	m.walk = findWalk(c)
+	m.shape = getWalkShape(c)
+	m.walk = m.shape.walk
 	cm := getConc(c)
 	// chain: the callee of the walk's returns that is not the walk itself
 	for _, r := range core.Returns(m.walk) {
@@ -177,36 +179,48 @@ func (m *walkModel) isParentOf(v, x ssa.Value) bool {
 
 // R03.2
 var ruleWalkDiscipline = &core.Rule{ID: "R03.2", Min: 6,
-	Doc: "walk discipline: exactly one function invokes detectors; it ranges forward over the receiver's children from index 0, gives each detector its own unmodified (header, limit), on acceptance returns the recursion on that child with the same arguments, on rejection moves to the next child, and after the loop returns the chain clone of the receiver",
+	Doc: "walk discipline: exactly one function invokes detectors; it ranges forward over the current node's children from index 0, gives each detector the walk's own unmodified (header, limit), on acceptance descends into that child at once (the recursion on it is returned; or, in the loop forms, the child becomes the current node and its children are scanned from the first), on rejection moves to the next child, and when no child accepts returns the chain clone of the current node",
 	Run: func(c *core.Ctx, s *core.Sink) {
 		m := getWalk(c)
-		f := m.walk
-		if len(f.Params) != 3 || !core.IsByteSlice(f.Params[1].Type()) {
+		w := m.shape
+		f := w.scan
+		if len(f.Params) != 3 || !core.IsByteSlice(f.Params[1].Type()) || len(w.walk.Params) != 3 || !core.IsByteSlice(w.walk.Params[1].Type()) {
 			core.Bail("walk %s does not have the shape (node, header, limit)", f.Name())
 		}
-		recv, hdr, lim := f.Params[0], f.Params[1], f.Params[2]
-		// children load of the receiver
+		hdr, lim := f.Params[1], f.Params[2]
+		// the node whose children are scanned: scan's receiver, or the outer loop's current node
+		var node ssa.Value = f.Params[0]
+		if w.form == "loop" {
+			node = w.cur
+		}
 		var chLoad ssa.Value
-		nLoads := 0
 		for _, b := range f.Blocks {
 			for _, in := range b.Instrs {
-				if base, fld, ok := core.LoadOfField(valueOf(in)); ok && fld == m.tm.FChildren && base == ssa.Value(recv) {
+				if base, fld, ok := core.LoadOfField(valueOf(in)); ok && fld == m.tm.FChildren && base == node {
 					chLoad = valueOf(in)
-					nLoads++
 				}
 			}
 		}
 		if chLoad == nil {
-			core.Bail("walk %s never reads its receiver's children", f.Name())
+			core.Bail("walk %s never reads the current node's children", f.Name())
 		}
-		_ = nLoads
 		rs := fde.FindRangeOver(f, chLoad)
 		if len(rs) != 1 {
-			s.Bad("forward range over all children", c.Pos(f.Pos()), fmt.Sprintf("%d forward loops over the receiver's children from index 0 to len (need exactly 1): children may be skipped or visited out of priority order", len(rs)))
+			s.Bad("forward range over all children", c.Pos(f.Pos()), fmt.Sprintf("%d forward loops over the current node's children from index 0 to len (need exactly 1): children may be skipped or visited out of priority order", len(rs)))
 			return
 		}
 		r := rs[0]
-		s.OK("forward range over all children", c.Pos(r.Load.Pos()), "index from 0 to len(children) step 1")
+		s.OK("forward range over all children", c.Pos(r.Load.Pos()), "index from 0 to len(children) step 1 ("+w.form+" form)")
+		// through blocks that only jump
+		skipJumps := func(b *ssa.BasicBlock) *ssa.BasicBlock {
+			for k := 0; k < 8 && len(b.Instrs) == 1; k++ {
+				if _, ok := b.Instrs[0].(*ssa.Jump); !ok {
+					break
+				}
+				b = b.Succs[0]
+			}
+			return b
+		}
 		// detector calls
 		var dets []*ssa.Call
 		for _, ci := range core.Calls(f) {
@@ -220,8 +234,8 @@ var ruleWalkDiscipline = &core.Rule{ID: "R03.2", Min: 6,
 		}
 		s.Check(len(dets) == 1, "one detector call site", c.Pos(f.Pos()), "1", fmt.Sprintf("%d detector call sites in the walk", len(dets)))
 		for _, call := range dets {
-			node, _, _ := core.LoadOfField(call.Call.Value)
-			s.Check(node == ssa.Value(r.Load) && call.Block() == r.Body, "detector of the current child", c.Pos(call.Pos()), "children[i].detector in the loop body", "the detector invoked is not that of the child the loop is looking at")
+			child, _, _ := core.LoadOfField(call.Call.Value)
+			s.Check(child == ssa.Value(r.Load) && call.Block() == r.Body, "detector of the current child", c.Pos(call.Pos()), "children[i].detector in the loop body", "the detector invoked is not that of the child the loop is looking at")
 			s.Check(len(call.Call.Args) == 2 && call.Call.Args[0] == ssa.Value(hdr) && call.Call.Args[1] == ssa.Value(lim), "detector arguments", c.Pos(call.Pos()), "the walk's own (header, limit)", "a detector is not given the walk's own unmodified header and limit: children would judge different bytes than their parent")
 			var iff *ssa.If
 			for _, ref := range *call.Referrers() {
@@ -234,48 +248,132 @@ var ruleWalkDiscipline = &core.Rule{ID: "R03.2", Min: 6,
 				continue
 			}
 			tb, fb := iff.Block().Succs[0], iff.Block().Succs[1]
-			okRec := false
-			if len(tb.Instrs) > 0 {
-				if ret, ok := tb.Instrs[len(tb.Instrs)-1].(*ssa.Return); ok {
+			okDesc := false
+			switch w.form {
+			case "recursive":
+				if ret := retOf(tb); ret != nil {
 					if rc, ok := ret.Results[0].(*ssa.Call); ok && rc.Call.StaticCallee() == f && rc.Block() == tb &&
-						rc.Call.Args[0] == node && rc.Call.Args[1] == ssa.Value(hdr) && rc.Call.Args[2] == ssa.Value(lim) {
-						okRec = true
+						rc.Call.Args[0] == child && rc.Call.Args[1] == ssa.Value(hdr) && rc.Call.Args[2] == ssa.Value(lim) {
+						okDesc = true
+					}
+				}
+			case "loop":
+				// the accepting edge leads straight back to the outer header, carrying the child as the new current node
+				from := tb
+				for k := 0; k < 8 && from != w.outer; k++ {
+					if len(from.Instrs) != 1 || len(from.Succs) != 1 {
+						break
+					}
+					if from.Succs[0] == w.outer {
+						break
+					}
+					from = from.Succs[0]
+				}
+				if len(from.Succs) == 1 && from.Succs[0] == w.outer && len(from.Instrs) == 1 {
+					for k, p := range w.outer.Preds {
+						if p == from && w.cur.(*ssa.Phi).Edges[k] == child {
+							okDesc = true
+						}
+					}
+				}
+			case "loop+helper":
+				if ret := retOf(tb); ret != nil && ret.Results[0] == child {
+					okDesc = true
+				}
+			}
+			s.Check(okDesc, "acceptance descends into that child at once", c.Pos(call.Pos()), map[string]string{"recursive": "return walk(child, header, limit)", "loop": "current = child; restart the scan", "loop+helper": "return child"}[w.form],
+				"when a child accepts, the walk does not immediately descend into that same child with the same arguments (last-match, skipping, or altered arguments)")
+			s.Check(skipJumps(fb) == r.Header, "rejection moves to the next child", c.Pos(call.Pos()), "back edge to the loop header", "when a child rejects, the walk does not simply continue with the next child")
+		}
+		// after the children loop of scan
+		done := core.ReachAvoiding(r.Done, map[*ssa.BasicBlock]bool{r.Header: true})
+		tailOK := func(fn *ssa.Function, in map[*ssa.BasicBlock]bool) {
+			n := 0
+			for _, ret := range core.Returns(fn) {
+				if !in[ret.Block()] {
+					continue
+				}
+				n++
+				rc, ok := spilled(ret, 0).(*ssa.Call)
+				s.Check(ok && rc.Call.StaticCallee() == m.chain && rc.Call.Args[0] == w.cur, "no child matched: "+returnOrdinal(ret), c.Pos(ret.Pos()), "chain clone of the current node", "when no child accepts, the result is not the clone of the current node's own chain")
+			}
+			s.Check(n >= 1, "loop exit returns", c.Pos(fn.Pos()), fmt.Sprint(n), "no return after the children loop")
+		}
+		switch w.form {
+		case "recursive":
+			tailOK(f, done)
+			for _, ret := range core.Returns(f) {
+				if done[ret.Block()] {
+					continue
+				}
+				if rc, ok := ret.Results[0].(*ssa.Call); ok && rc.Call.StaticCallee() == f {
+					continue
+				}
+				s.Bad("stray return in the walk: "+returnOrdinal(ret), c.Pos(ret.Pos()), "a return that is neither the recursion on an accepting child nor the clone after the loop")
+			}
+		case "loop":
+			// leaving the children loop without an accepting child never re-enters the outer loop
+			s.Check(!done[w.outer], "no accepting child ends the descent", c.Pos(r.Done.Instrs[0].Pos()), "the exit of the children loop does not lead back to the outer loop", "after a level without an accepting child the walk goes round again: the descent may restart or never end")
+			tailOK(f, done)
+			for _, ret := range core.Returns(f) {
+				if !done[ret.Block()] {
+					s.Bad("stray return in the walk: "+returnOrdinal(ret), c.Pos(ret.Pos()), "a return that is not the clone after the descent")
+				}
+			}
+			// the outer loop does nothing but restart the scan: the only back edges are the accepting ones
+			for k, p := range w.outer.Preds {
+				if w.outer.Dominates(p) {
+					s.Check(w.cur.(*ssa.Phi).Edges[k] == ssa.Value(r.Load), "outer loop continues only with an accepting child", c.Pos(w.outer.Instrs[0].Pos()), "current = accepting child", "the descent continues with a node that is not the child that accepted")
+				}
+			}
+		case "loop+helper":
+			// scan: nil after the loop, nothing else
+			for _, ret := range core.Returns(f) {
+				if done[ret.Block()] {
+					s.Check(core.IsNilConst(ret.Results[0]), f.Name()+": no child matched: "+returnOrdinal(ret), c.Pos(ret.Pos()), "nil", "the child scan reports a node although no child accepted")
+				} else if ret.Results[0] != ssa.Value(r.Load) {
+					s.Bad(f.Name()+": stray return: "+returnOrdinal(ret), c.Pos(ret.Pos()), "the child scan returns something other than the accepting child")
+				}
+			}
+			// walk: scan(cur, header, limit) with the walk's own arguments; nil ends the descent with the tail, non-nil becomes the current node
+			g, call := w.walk, w.scanCall
+			s.Check(call.Call.Args[1] == ssa.Value(g.Params[1]) && call.Call.Args[2] == ssa.Value(g.Params[2]), "child scan receives the walk's own (header, limit)", c.Pos(call.Pos()), "unmodified arguments", "the child scan is not given the walk's own unmodified header and limit")
+			var iff *ssa.If
+			var nilEdge, nonNil *ssa.BasicBlock
+			for _, ref := range *call.Referrers() {
+				if bo, ok := ref.(*ssa.BinOp); ok && core.IsNilConst(bo.Y) && (bo.Op == token.EQL || bo.Op == token.NEQ) {
+					for _, r2 := range *bo.Referrers() {
+						if x, ok := r2.(*ssa.If); ok {
+							iff = x
+							nilEdge, nonNil = x.Block().Succs[0], x.Block().Succs[1]
+							if bo.Op == token.NEQ {
+								nilEdge, nonNil = nonNil, nilEdge
+							}
+						}
 					}
 				}
 			}
-			s.Check(okRec, "acceptance returns the recursion on that child", c.Pos(call.Pos()), "return walk(child, header, limit)", "when a child accepts, the walk does not immediately return the recursion on that same child with the same arguments (last-match, skipping, or altered arguments)")
-			// rejection: next iteration
-			nb := fb
-			for nb != r.Header && len(nb.Instrs) == 1 {
-				if _, ok := nb.Instrs[0].(*ssa.Jump); ok {
-					nb = nb.Succs[0]
-				} else {
-					break
+			if iff == nil {
+				s.Bad("result of the child scan decides the descent", c.Pos(call.Pos()), "the result of the child scan is not tested against nil")
+				return
+			}
+			// every path from the non-nil edge returns to the outer header (cur = result, checked by the shape), the nil edge never does
+			back := core.ReachAvoiding(nonNil, map[*ssa.BasicBlock]bool{w.outer: true})
+			okBack := true
+			for b := range back {
+				if retOf(b) != nil {
+					okBack = false
 				}
 			}
-			s.Check(nb == r.Header, "rejection moves to the next child", c.Pos(call.Pos()), "back edge to the loop header", "when a child rejects, the walk does not simply continue with the next child")
-		}
-		// after the loop
-		done := core.ReachAvoiding(r.Done, map[*ssa.BasicBlock]bool{r.Header: true})
-		n := 0
-		for _, ret := range core.Returns(f) {
-			if !done[ret.Block()] {
-				continue
+			s.Check(okBack, "acceptance continues the descent", c.Pos(iff.Pos()), "non-nil result: current = child, scan again", "after a child accepted the walk can return without descending into it")
+			tail := core.ReachAvoiding(nilEdge, map[*ssa.BasicBlock]bool{})
+			s.Check(!tail[w.outer], "no accepting child ends the descent", c.Pos(iff.Pos()), "nil result leaves the loop", "after a level without an accepting child the walk goes round again")
+			tailOK(g, tail)
+			for _, ret := range core.Returns(g) {
+				if !tail[ret.Block()] {
+					s.Bad("stray return in the walk: "+returnOrdinal(ret), c.Pos(ret.Pos()), "a return that is not the clone after the descent")
+				}
 			}
-			n++
-			rc, ok := spilled(ret, 0).(*ssa.Call)
-			s.Check(ok && rc.Call.StaticCallee() == m.chain && rc.Call.Args[0] == ssa.Value(recv), "no child matched: "+returnOrdinal(ret), c.Pos(ret.Pos()), "chain clone of the receiver", "when no child accepts, the result is not the clone of the receiver's own chain")
-		}
-		s.Check(n >= 1, "loop exit returns", c.Pos(f.Pos()), fmt.Sprint(n), "no return after the children loop")
-		// loop body must not return anything else
-		for _, ret := range core.Returns(f) {
-			if done[ret.Block()] {
-				continue
-			}
-			if rc, ok := ret.Results[0].(*ssa.Call); ok && rc.Call.StaticCallee() == f {
-				continue
-			}
-			s.Bad("stray return in the walk: "+returnOrdinal(ret), c.Pos(ret.Pos()), "a return that is neither the recursion on an accepting child nor the clone after the loop")
 		}
 	}}
 
@@ -285,23 +383,31 @@ var ruleCloneChain = &core.Rule{ID: "R03.3", Min: 5,
 	Run: func(c *core.Ctx, s *core.Sink) {
 		m := getWalk(c)
 		f := m.chain
-		if m.clone == nil {
-			core.Bail("single-node clone function not found")
+		bodies := m.copyBodies()
+		if len(bodies) == 0 {
+			core.Bail("no allocation of a result node found in the chain clone or a clone function it calls")
 		}
 		recv := f.Params[0]
-		var first *ssa.Call
+		var first *nodeCopy
 		for _, ci := range core.Calls(f) {
-			if call, ok := ci.(*ssa.Call); ok && call.Call.StaticCallee() == m.clone && call.Call.Args[0] == ssa.Value(recv) {
-				first = call
+			if call, ok := ci.(*ssa.Call); ok {
+				if nc := m.copyOf(call); nc != nil && nc.src == ssa.Value(recv) {
+					first = nc
+				}
+			}
+		}
+		for _, nc := range bodies {
+			if nc.fn == f && nc.src == ssa.Value(recv) {
+				first = nc
 			}
 		}
 		if first == nil {
 			s.Bad("first clone", c.Pos(f.Pos()), "the chain clone does not start with a clone of its receiver")
 			return
 		}
-		s.Check(len(f.Params) == 2 && first.Call.Args[1] == ssa.Value(f.Params[1]), "leaf clone carries the parameter map", c.Pos(first.Pos()), "clone(receiver, ps)", "the leaf clone is not built with the caller's parameter map")
+		s.Check(len(f.Params) == 2 && first.ps == ssa.Value(f.Params[1]), "leaf clone carries the parameter map", c.Pos(first.val.Pos()), "clone(receiver, ps)", "the leaf clone is not built with the caller's parameter map")
 		for _, r := range core.Returns(f) {
-			s.Check(r.Results[0] == ssa.Value(first), "returns the leaf clone: "+returnOrdinal(r), c.Pos(r.Pos()), "first clone", "the chain clone returns something other than the clone of its receiver")
+			s.Check(r.Results[0] == first.val, "returns the leaf clone: "+returnOrdinal(r), c.Pos(r.Pos()), "first clone", "the chain clone returns something other than the clone of its receiver")
 		}
 		// the loop
 		var pPhi, lastPhi *ssa.Phi
@@ -315,7 +421,7 @@ var ruleCloneChain = &core.Rule{ID: "R03.3", Min: 5,
 					if m.isParentOf(e, recv) {
 						pPhi = ph
 					}
-					if e == ssa.Value(first) {
+					if e == first.val {
 						lastPhi = ph
 					}
 				}
@@ -349,67 +455,85 @@ var ruleCloneChain = &core.Rule{ID: "R03.3", Min: 5,
 				continue
 			}
 			s.Check(m.isParentOf(pPhi.Edges[k], pPhi), "step to the next ancestor", c.Pos(pred.Instrs[0].Pos()), "p = parent(p)", "the loop does not advance to the parent of the current ancestor")
-			cl, ok := lastPhi.Edges[k].(*ssa.Call)
-			if !ok {
-				// tail = tail.parent right after tail.parent = clone(p, nil): the next link is read back from the field just stored
+			cl := m.copyOf(lastPhi.Edges[k])
+			if cl == nil {
+				// tail = tail.parent right after tail.parent = <copy of p>: the next link is read back from the field just stored
 				if base, fld, isLd := core.LoadOfField(lastPhi.Edges[k]); isLd && fld == m.tm.FParent && base == ssa.Value(lastPhi) {
 					for _, ref := range *lastPhi.Referrers() {
 						if fa, isFA := ref.(*ssa.FieldAddr); isFA && fa.Field == m.tm.FParent {
 							for _, r2 := range *fa.Referrers() {
 								if st, isSt := r2.(*ssa.Store); isSt && st.Block() == pred {
-									if c2, isCall := st.Val.(*ssa.Call); isCall {
-										cl, ok = c2, true
-									}
+									cl = m.copyOf(st.Val)
 								}
 							}
 						}
 					}
 				}
 			}
-			okClone := ok && cl.Call.StaticCallee() == m.clone && cl.Call.Args[0] == ssa.Value(pPhi)
+			okClone := cl != nil && cl.src == ssa.Value(pPhi)
 			s.Check(okClone, "ancestor is cloned", c.Pos(pred.Instrs[0].Pos()), "clone(p, nil)", "the value linked into the result chain is not a fresh clone of the current ancestor (a shared tree node would leak to the caller)")
 			if okClone {
-				s.Check(core.IsNilConst(cl.Call.Args[1]), "ancestor clone has no parameters", c.Pos(cl.Pos()), "nil parameter map", "an ancestor is cloned with a parameter map: the Parent() chain would carry parameters")
+				s.Check(cl.ps == nil, "ancestor clone has no parameters", c.Pos(cl.val.Pos()), "nil parameter map", "an ancestor is cloned with a parameter map: the Parent() chain would carry parameters")
 				// store lastChild.parent = clone
 				linked := false
 				for _, ref := range *lastPhi.Referrers() {
 					if fa, ok := ref.(*ssa.FieldAddr); ok && fa.Field == m.tm.FParent {
 						for _, r2 := range *fa.Referrers() {
-							if st, ok := r2.(*ssa.Store); ok && st.Val == ssa.Value(cl) {
+							if st, ok := r2.(*ssa.Store); ok && st.Val == cl.val {
 								linked = true
 							}
 						}
 					}
 				}
-				s.Check(linked, "previous clone is linked to it", c.Pos(cl.Pos()), "prev.parent = clone", "the clone of an ancestor is not stored as parent of the previous clone")
+				s.Check(linked, "previous clone is linked to it", c.Pos(cl.val.Pos()), "prev.parent = clone", "the clone of an ancestor is not stored as parent of the previous clone")
 			}
 		}
-		// clone body: stores
-		g := m.clone
+		// the fields of every fresh result node
 		st := m.tm.Type.Underlying().(*types.Struct)
-		for _, b := range g.Blocks {
-			for _, in := range b.Instrs {
-				x, ok := in.(*ssa.Store)
-				if !ok {
-					continue
-				}
-				fa, ok := x.Addr.(*ssa.FieldAddr)
-				if !ok {
-					continue
-				}
-				if _, isAlloc := fa.X.(*ssa.Alloc); !isAlloc {
-					s.Bad(fmt.Sprintf("%s: store to .%s of a non-fresh object", g.Name(), st.Field(fa.Field).Name()), c.Pos(x.Pos()), "clone writes to something other than the object it allocates")
-					continue
-				}
-				key := fmt.Sprintf("%s: field .%s of the clone", g.Name(), st.Field(fa.Field).Name())
-				switch fa.Field {
-				case m.tm.FMime:
-					s.OK(key, c.Pos(x.Pos()), "checked by R02.3")
-				case m.tm.FAliases, m.tm.FExt:
-					base, fld, ok := core.LoadOfField(x.Val)
-					s.Check(ok && fld == fa.Field && base == ssa.Value(g.Params[0]), key, c.Pos(x.Pos()), "copied from the receiver", "a clone's field is not copied from the cloned node")
-				default:
-					s.Bad(key, c.Pos(x.Pos()), "clone sets a field (children / parent / detector) that a result value must not share with the tree")
+		for _, fn := range []*ssa.Function{m.clone, m.chain} {
+			if fn == nil {
+				continue
+			}
+			for _, b := range fn.Blocks {
+				for _, in := range b.Instrs {
+					x, ok := in.(*ssa.Store)
+					if !ok {
+						continue
+					}
+					fa, ok := x.Addr.(*ssa.FieldAddr)
+					if !ok {
+						continue
+					}
+					if pt, ok := fa.X.Type().Underlying().(*types.Pointer); !ok || !types.Identical(pt.Elem(), m.tm.Type) {
+						continue
+					}
+					var nc *nodeCopy
+					for _, cand := range bodies {
+						if cand.alloc != nil && fa.X == ssa.Value(cand.alloc) {
+							nc = cand
+						}
+					}
+					if nc == nil {
+						// the link store prev.parent = copy is the only store through a non-fresh pointer, and prev is itself a copy (the carried phi)
+						if fn == m.chain && fa.Field == m.tm.FParent && fa.X == ssa.Value(lastPhi) {
+							continue
+						}
+						s.Bad(fmt.Sprintf("%s: store to .%s of a non-fresh object", fn.Name(), st.Field(fa.Field).Name()), c.Pos(x.Pos()), "clone writes to something other than the object it allocates")
+						continue
+					}
+					key := fmt.Sprintf("%s: field .%s of the clone", fn.Name(), st.Field(fa.Field).Name())
+					switch fa.Field {
+					case m.tm.FMime:
+						s.OK(key, c.Pos(x.Pos()), "checked by R02.3")
+					case m.tm.FAliases, m.tm.FExt:
+						base, fld, ok := core.LoadOfField(x.Val)
+						s.Check(ok && fld == fa.Field && nc.src != nil && base == nc.src, key, c.Pos(x.Pos()), "copied from the cloned node", "a clone's field is not copied from the cloned node")
+					case m.tm.FParent:
+						// in-place form of the link: the parent of a fresh node may only be another fresh copy
+						s.Check(m.copyOf(x.Val) != nil, key, c.Pos(x.Pos()), "linked to a fresh copy", "a result node is linked to a node of the shared tree")
+					default:
+						s.Bad(key, c.Pos(x.Pos()), "clone sets a field (children / parent / detector) that a result value must not share with the tree")
+					}
 				}
 			}
 		}
@@ -461,7 +585,7 @@ var ruleParams = &core.Rule{ID: "R02.2", Min: 5,
 					if isCall && vcall.Call.StaticCallee() == nil {
 						if lk := cm.lookupOf(vcall.Call.Value); lk != nil {
 							base, fld, isLoad := core.LoadOfField(lk.key)
-							if isLoad && fld == m.tm.FMime && base == ssa.Value(f.Params[0]) && len(vcall.Call.Args) == 1 && vcall.Call.Args[0] == ssa.Value(f.Params[1]) {
+							if isLoad && fld == m.tm.FMime && base == m.shape.cur && len(vcall.Call.Args) == 1 && vcall.Call.Args[0] == ssa.Value(f.Params[1]) {
 								okVal = true
 								// guarded by the found test
 								guarded, nonEmpty := false, false
@@ -481,6 +605,45 @@ var ruleParams = &core.Rule{ID: "R02.2", Min: 5,
 							}
 						}
 					}
+					if !okVal && cm.direct != nil {
+						// inline form: the value is a direct sniffer call (or a phi of such calls and ""), each selected
+						// by the current node's own type and applied to the walk's unmodified header
+						var srcs []ssa.Value
+						if ph, isPhi := x.Value.(*ssa.Phi); isPhi {
+							srcs = ph.Edges
+						} else {
+							srcs = []ssa.Value{x.Value}
+						}
+						okVal = true
+						nCalls := 0
+						for _, v := range srcs {
+							if k, isC := core.ConstString(v); isC && k == "" {
+								continue
+							}
+							dc, isCall := v.(*ssa.Call)
+							if !isCall || cm.direct[dc] == "" || cm.directKeyBase(c, dc) != m.shape.cur || len(dc.Call.Args) != 1 || dc.Call.Args[0] != ssa.Value(f.Params[1]) {
+								okVal = false
+								continue
+							}
+							nCalls++
+						}
+						if nCalls == 0 {
+							okVal = false
+						}
+						nonEmpty := false
+						for _, de := range core.DominatingConds(x.Block()) {
+							cond, val := core.StripNot(de.Cond, de.Val)
+							if bo, ok := cond.(*ssa.BinOp); ok && bo.X == x.Value {
+								if k, ok := core.ConstString(bo.Y); ok && k == "" && ((bo.Op == token.NEQ && val) || (bo.Op == token.EQL && !val)) {
+									nonEmpty = true
+								}
+							}
+						}
+						if okVal {
+							s.OK("charset only for the three text types", c.Pos(x.Pos()), "each sniffer call sits under the test of the current node's type")
+							s.Check(nonEmpty, "charset only when non-empty", c.Pos(x.Pos()), "under sniffer result != \"\"", "an empty charset parameter may be attached")
+						}
+					}
 					s.Check(okVal, "charset value provenance", c.Pos(x.Pos()), "sniffer[receiver type](header)", "the charset value is not the result of the sniffer selected by the receiver's own type on the walk's unmodified header")
 				case *ssa.Call, *ssa.DebugRef:
 				default:
@@ -488,53 +651,64 @@ var ruleParams = &core.Rule{ID: "R02.2", Min: 5,
 				}
 			}
 		}
-		// clone: mime field
-		g := m.clone
-		if g == nil {
-			core.Bail("clone function not found")
+		// type string of every fresh result node
+		bodies := m.copyBodies()
+		if len(bodies) == 0 {
+			core.Bail("no allocation of a result node found in the chain clone or a clone function it calls")
 		}
-		for _, b := range g.Blocks {
-			for _, in := range b.Instrs {
-				x, ok := in.(*ssa.Store)
-				if !ok {
-					continue
-				}
-				fa, ok := x.Addr.(*ssa.FieldAddr)
+		for _, nc := range bodies {
+			g := nc.fn
+			psOf := nc.ps
+			if g == m.clone && len(g.Params) > 1 {
+				psOf = g.Params[1]
+			}
+			for _, ref := range *nc.alloc.Referrers() {
+				fa, ok := ref.(*ssa.FieldAddr)
 				if !ok || fa.Field != m.tm.FMime {
 					continue
 				}
-				var vals []ssa.Value
-				if ph, ok := x.Val.(*ssa.Phi); ok {
-					vals = ph.Edges
-				} else {
-					vals = []ssa.Value{x.Val}
-				}
-				for i, v := range vals {
-					key := fmt.Sprintf("%s: type string of the clone, source #%d", g.Name(), i+1)
-					if base, fld, ok := core.LoadOfField(v); ok && fld == m.tm.FMime && base == ssa.Value(g.Params[0]) {
-						s.OK(key, c.Pos(x.Pos()), "registered type of the cloned node")
+				for _, r2 := range *fa.Referrers() {
+					x, ok := r2.(*ssa.Store)
+					if !ok {
 						continue
 					}
-					if call, ok := v.(*ssa.Call); ok && core.CalleeIs(&call.Call, "mime", "FormatMediaType") {
-						base, fld, isLoad := core.LoadOfField(call.Call.Args[0])
-						s.Check(isLoad && fld == m.tm.FMime && base == ssa.Value(g.Params[0]) && call.Call.Args[1] == ssa.Value(g.Params[1]), key, c.Pos(call.Pos()), "mime.FormatMediaType(registered type, ps)", "FormatMediaType is not applied to (registered type of the node, the parameter map)")
-						// only when there are parameters: without them the registered string must be copied verbatim
-						// (FormatMediaType lower-cases and re-validates; names of extensions are arbitrary strings)
-						guarded := false
-						for _, de := range core.DominatingConds(call.Block()) {
-							cond, val := core.StripNot(de.Cond, de.Val)
-							if bo, ok := cond.(*ssa.BinOp); ok {
-								if ln, ok := bo.X.(*ssa.Call); ok && core.IsBuiltin(&ln.Call, "len") && ln.Call.Args[0] == ssa.Value(g.Params[1]) && core.IsConstInt(bo.Y, 0) {
-									if (bo.Op == token.GTR && val) || (bo.Op == token.NEQ && val) || (bo.Op == token.EQL && !val) || (bo.Op == token.LEQ && !val) {
-										guarded = true
+					var vals []ssa.Value
+					if ph, ok := x.Val.(*ssa.Phi); ok {
+						vals = ph.Edges
+					} else {
+						vals = []ssa.Value{x.Val}
+					}
+					for i, v := range vals {
+						key := fmt.Sprintf("%s: type string of the clone, source #%d", g.Name(), i+1)
+						if base, fld, ok := core.LoadOfField(v); ok && fld == m.tm.FMime && nc.src != nil && base == nc.src {
+							s.OK(key, c.Pos(x.Pos()), "registered type of the cloned node")
+							continue
+						}
+						if call, ok := v.(*ssa.Call); ok && core.CalleeIs(&call.Call, "mime", "FormatMediaType") {
+							base, fld, isLoad := core.LoadOfField(call.Call.Args[0])
+							okPs := psOf != nil && call.Call.Args[1] == psOf
+							if g == m.chain {
+								okPs = len(g.Params) > 1 && call.Call.Args[1] == ssa.Value(g.Params[1])
+							}
+							s.Check(isLoad && fld == m.tm.FMime && nc.src != nil && base == nc.src && okPs, key, c.Pos(call.Pos()), "mime.FormatMediaType(registered type, ps)", "FormatMediaType is not applied to (registered type of the node, the parameter map)")
+							// only when there are parameters: without them the registered string must be copied verbatim
+							// (FormatMediaType lower-cases and re-validates; names of extensions are arbitrary strings)
+							guarded := false
+							for _, de := range core.DominatingConds(call.Block()) {
+								cond, val := core.StripNot(de.Cond, de.Val)
+								if bo, ok := cond.(*ssa.BinOp); ok {
+									if ln, ok := bo.X.(*ssa.Call); ok && core.IsBuiltin(&ln.Call, "len") && ln.Call.Args[0] == call.Call.Args[1] && core.IsConstInt(bo.Y, 0) {
+										if (bo.Op == token.GTR && val) || (bo.Op == token.NEQ && val) || (bo.Op == token.EQL && !val) || (bo.Op == token.LEQ && !val) {
+											guarded = true
+										}
 									}
 								}
 							}
+							s.Check(guarded, key+": only when parameters exist", c.Pos(call.Pos()), "under len(ps) > 0", "the type string is re-formatted even when there is no parameter to attach: a format registered by Extend under a non-canonical spelling (upper case, embedded parameter) would be reported, and looked up, under a different name")
+							continue
 						}
-						s.Check(guarded, key+": only when parameters exist", c.Pos(call.Pos()), "under len(ps) > 0", "the type string is re-formatted even when there is no parameter to attach: a format registered by Extend under a non-canonical spelling (upper case, embedded parameter) would be reported, and looked up, under a different name")
-						continue
+						s.Bad(key, c.Pos(x.Pos()), fmt.Sprintf("the type string of a result is built from %s: a sniffed charset label (attacker text) must reach it only through mime.FormatMediaType, which quotes or encodes unsafe values", v))
 					}
-					s.Bad(key, c.Pos(x.Pos()), fmt.Sprintf("the type string of a result is built from %s: a sniffed charset label (attacker text) must reach it only through mime.FormatMediaType, which quotes or encodes unsafe values", v))
 				}
 			}
 		}
@@ -1081,3 +1255,105 @@ var ruleLimitSlice = &core.Rule{ID: "R04.1", Min: 5,
 			}
 		}
 	}}
+
+// nodeCopy is one fresh copy of a tree node made for a result chain: either a
+// call of the single-node clone function, or a node allocated in place whose
+// type string / aliases / extension are copied from src.
+type nodeCopy struct {
+	val   ssa.Value  // the fresh node
+	src   ssa.Value  // the node it copies
+	ps    ssa.Value  // the parameter map applied to the type string (nil: none)
+	alloc *ssa.Alloc // in-place form
+	fn    *ssa.Function
+}
+
+// copyOf recognises v as a fresh copy made inside the chain function.
+func (m *walkModel) copyOf(v ssa.Value) *nodeCopy {
+	if call, ok := v.(*ssa.Call); ok && m.clone != nil && call.Call.StaticCallee() == m.clone {
+		nc := &nodeCopy{val: v, src: call.Call.Args[0], fn: m.clone}
+		if len(call.Call.Args) > 1 && !core.IsNilConst(call.Call.Args[1]) {
+			nc.ps = call.Call.Args[1]
+		}
+		return nc
+	}
+	al, ok := v.(*ssa.Alloc)
+	if !ok || !al.Heap {
+		return nil
+	}
+	pt, ok := al.Type().Underlying().(*types.Pointer)
+	if !ok || !types.Identical(pt.Elem(), m.tm.Type) {
+		return nil
+	}
+	nc := &nodeCopy{val: v, alloc: al, fn: al.Parent()}
+	for _, ref := range *al.Referrers() {
+		fa, ok := ref.(*ssa.FieldAddr)
+		if !ok || fa.Field != m.tm.FMime {
+			continue
+		}
+		for _, r2 := range *fa.Referrers() {
+			st, ok := r2.(*ssa.Store)
+			if !ok {
+				continue
+			}
+			vals := []ssa.Value{st.Val}
+			if ph, ok := st.Val.(*ssa.Phi); ok {
+				vals = ph.Edges
+			}
+			for _, x := range vals {
+				var base ssa.Value
+				if b, fld, ok := core.LoadOfField(x); ok && fld == m.tm.FMime {
+					base = b
+				} else if call, ok := x.(*ssa.Call); ok && core.CalleeIs(&call.Call, "mime", "FormatMediaType") {
+					if b, fld, ok := core.LoadOfField(call.Call.Args[0]); ok && fld == m.tm.FMime {
+						base = b
+						nc.ps = call.Call.Args[1]
+					}
+				}
+				if base == nil || (nc.src != nil && nc.src != base) {
+					return nil
+				}
+				nc.src = base
+			}
+		}
+	}
+	if nc.src == nil {
+		return nil
+	}
+	return nc
+}
+
+// copyBodies lists where fresh result nodes are filled in: the allocations of
+// the clone function (source = its receiver, parameters = its map parameter),
+// and the in-place allocations of the chain function.
+func (m *walkModel) copyBodies() []*nodeCopy {
+	var out []*nodeCopy
+	add := func(fn *ssa.Function, fixedSrc, fixedPs ssa.Value) {
+		for _, b := range fn.Blocks {
+			for _, in := range b.Instrs {
+				al, ok := in.(*ssa.Alloc)
+				if !ok || !al.Heap {
+					continue
+				}
+				if pt, ok := al.Type().Underlying().(*types.Pointer); !ok || !types.Identical(pt.Elem(), m.tm.Type) {
+					continue
+				}
+				if fixedSrc != nil {
+					out = append(out, &nodeCopy{val: al, alloc: al, fn: fn, src: fixedSrc, ps: fixedPs})
+				} else if nc := m.copyOf(al); nc != nil {
+					out = append(out, nc)
+				} else {
+					out = append(out, &nodeCopy{val: al, alloc: al, fn: fn}) // src unknown: reported by the field checks
+				}
+			}
+		}
+	}
+	if m.clone != nil {
+		var ps ssa.Value
+		if len(m.clone.Params) > 1 {
+			ps = m.clone.Params[1]
+		}
+		add(m.clone, m.clone.Params[0], ps)
+	}
+	add(m.chain, nil, nil)
+	return out
+}
